@@ -170,6 +170,37 @@ theorem C19_transparent (mode : SaveMode) (size : β → Nat) (fn : α → β) (
     obtain ⟨kv, hkv, rfl⟩ := hmem
     exact i4 kv hkv hk
 
+/-- TRANSPARENT THROUGH `name_fn`: keys reach the disk as file names.  If the naming keeps apart every two keys
+of the run that stand for different inputs, the cached run over the names returns what the uncached run returns
+and the rerun recomputes nothing. -/
+theorem C19_transparent_named {ν : Type} [DecidableEq ν] (mode : SaveMode) (size : β → Nat) (fn : α → β)
+    (name : κ → ν) (inputs : List (κ × α)) (hsep : NamesSeparate name inputs) :
+    (run mode size fn (FS.empty : FS ν β) (named name inputs)).out = .ok (uncached fn (named name inputs)) ∧
+    (run mode size fn (run mode size fn (FS.empty : FS ν β) (named name inputs)).fs (named name inputs)).calls = [] := by
+  cases hi : inputs with
+  | nil => simp [named, run, uncached]
+  | cons kv0 rest =>
+    rw [← hi]
+    have hfun : ∀ a ∈ named name inputs, ∀ b ∈ named name inputs, a.1 = b.1 → a.2 = b.2 := by
+      intro a ha b hb hab
+      simp only [named, List.mem_map] at ha hb
+      obtain ⟨a', ha', rfl⟩ := ha
+      obtain ⟨b', hb', rfl⟩ := hb
+      exact hsep a' ha' b' hb' hab
+    have hr := respects_of_separate (named name inputs) kv0.2 hfun
+    have := C19_transparent mode size fn _ (named name inputs) hr FS.empty (fun _ => trivial)
+    exact ⟨this.1, this.2.2⟩
+
+/-- ... and a naming that maps two keys with different inputs to ONE file is not transparent: the second key is
+served the first key's result (keys 0 and 1 both named 7; fn = +1). -/
+theorem C19_colliding_names_not_transparent :
+    (run .atomic (fun _ => 3) (fun v : Nat => v + 1) (FS.empty : FS Nat Nat)
+        (named (fun _ : Nat => 7) [(0, 10), (1, 20)])).out = .ok [(7, 11), (7, 11)] ∧
+    uncached (fun v : Nat => v + 1) (named (fun _ : Nat => 7) [(0, 10), (1, 20)]) = [(7, 11), (7, 21)] := by
+  constructor
+  · simp [named, run, loadOrRun, FS.empty, saveOps, applyOps, applyOp, FS.set, File.bump, Except.map]
+  · simp [named, uncached]
+
 /-- any history of interrupted runs keeps the cache consistent -/
 theorem C19_crash_history_consistent (size : β → Nat) (fn : α → β) (val : κ → α)
     (hist : List (Interrupted κ α)) (hh : ∀ h ∈ hist, Respects val h.inputs) :
